@@ -647,6 +647,34 @@ Proof.
     + reflexivity.
 Qed.
 
+(* The per-value reading of docs/execlayer.md: the code agrees with it on every lookup whose key
+   has no entry or a complete entry (gas limit and builder present) ... *)
+Lemma v1_fieldwise_partial : forall c key fbfee fbgas,
+  v1_entry_complete c key = true ->
+  proposer_config_v1 c key fbfee fbgas = resolve_v1_doc c key fbfee fbgas.
+Proof.
+  intros c key fbfee fbgas H. unfold v1_entry_complete in H.
+  unfold proposer_config_v1, resolve_v1_doc.
+  destruct (aget (c1_props c) key) as [[q|]|]; [| discriminate |].
+  - apply andb_true_iff in H as [Hg Hb]. apply negb_true_iff in Hg.
+    destruct (q_builder q) as [b|] eqn:Eb; [|discriminate].
+    unfold gas_of1. cbn [option_map obind first_some or_opt]. rewrite Eb, Hg. reflexivity.
+  - destruct (c1_default c) as [d|]; cbn [option_map obind first_some or_opt]; [|reflexivity].
+    unfold gas_of1. destruct (q_gas d =? 0); destruct (q_builder d) as [b|]; reflexivity.
+Qed.
+
+(* ... and not otherwise: the example of the document itself. *)
+Lemma v1_fieldwise_refuted :
+  exists c key fbfee fbgas,
+    proposer_config_v1 c key fbfee fbgas <> resolve_v1_doc c key fbfee fbgas.
+Proof.
+  exists {| c1_props := [(1, Some {| q_fee := 11; q_gas := 0; q_builder := None |})];
+            c1_default := Some {| q_fee := 12; q_gas := 0;
+                                  q_builder := Some {| b_enabled := true; b_grace := 0; b_relays := [1; 2] |} |} |},
+         1, 99, 30000000.
+  cbv. discriminate.
+Qed.
+
 (* ------------------------------------------------------------------------------------------- *)
 (* Both versions *)
 
